@@ -276,6 +276,12 @@ def run(ctx, drv):
         all_hold = all(REL[o](x, y) for (o, y), x in zip(decl, vals))
         if (s.constraint_violation == 0) != all_hold or s.feasible != all_hold:
             ctx.fail("feasible-flag-vs-relations", inp, [s.constraint_violation, s.feasible], all_hold, "core.Problem.__call__")
+        # a copy of an evaluated solution (offspring left unchanged by the operators, injected populations, archives) is as feasible
+        # as its original: total violation and feasibility travel with the copy
+        import copy as _cp
+        c_ = _cp.deepcopy(s)
+        if c_.constraint_violation != s.constraint_violation or getattr(c_, "feasible", None) != s.feasible or list(c_.constraints) != list(s.constraints):
+            ctx.fail("copy-loses-violation-or-feasibility", inp, [c_.constraint_violation, getattr(c_, "feasible", None)], [s.constraint_violation, s.feasible], "core.Solution.__deepcopy__")
         if abs(float(s.constraint_violation) - math.fsum(each)) > 1e-9 * max(1.0, math.fsum(each)):
             ctx.fail("total-not-sum-of-abs", inp, s.constraint_violation, math.fsum(each), "core.Problem.__call__")
         tags = [int(type(c(x)) is int) for c, x in zip(p.constraints, s.constraints)]
